@@ -326,7 +326,10 @@ class XMLResource(XMLResourceLoader):
         elif is_remote_url(url):
             raise XMLResourceBlocked(f"block access to remote resource {url}")
         elif self._allow == 'sandbox' and self._base_url is not None:
-            if not url.startswith(normalize_url(self._base_url)):
+            base_url = normalize_url(self._base_url)
+            if not base_url.endswith('/'):
+                base_url += '/'  # match whole path segments: /base/dir doesn't contain /base/dir2
+            if not url.startswith(base_url):
                 raise XMLResourceBlocked(f"block access to out of sandbox file {url}")
 
     def parse(self, source: XMLSourceType, lazy: LazyType = False) -> None:
